@@ -110,11 +110,16 @@ Valid(ev, order) ==
        /\ \A i \in 1..N : du[i].cls = "fin" /\ RLe(MinDur, du[i].val)
        /\ FinM(ev.P)
        /\ \A d \in 1..(s - 1) : FinV(ev.bc["s" \o names[d]]) /\ FinV(ev.bc["e" \o names[d]])
-VerdictCands(tag, out, want, judgeCheck, info) ==
+\* has_error is read before, has_error_after after the checkValidity() calls of the same observation (checkValidity stores a message
+\* when the state is invalid).  A brand-new optimizer has no initialisation result to explain yet: judgeMsg = FALSE there.
+VerdictCandsM(tag, out, want, judgeCheck, judgeMsg, info) ==
     <<Cand("C16", tag \o ".is_valid", out.is_valid = want /\ out.as_bool = want, info),
-      Cand("C16", tag \o ".message", out.has_error = ~want, info)>>
+      Cand("C16", tag \o ".message", judgeMsg => out.has_error = ~want, info),
+      Cand("C16", tag \o ".message_after_check", out.has_error_after = ~want, info)>>
     \o (IF judgeCheck THEN <<Cand("C16", tag \o ".check_validity", out.check_validity = want /\ out.check_validity_nomsg = want
                                                                  /\ out.check_msg_empty = want, info)>> ELSE <<>>)
+
+VerdictCands(tag, out, want, judgeCheck, info) == VerdictCandsM(tag, out, want, judgeCheck, TRUE, info)
 
 SetInitStep(ev) ==
     LET c == cfgs[ev.obj]
@@ -135,7 +140,7 @@ SetInitStep(ev) ==
 TrSetInit == IsEvent("set_init") /\ sc' = SetInitStep(Ev)
              /\ OSetInit(Ev.obj, l, sc'.n, sc'.valid, sc'.stored) /\ Record
 
-NewStep(ev) == Force([StepRec(VerdictCands("new", ev.out, FALSE, FALSE, [order |-> ev.order]), <<"optimizers">>) EXCEPT !.cfgs = With(cfgs, ev.obj, NewCfg(ev))])
+NewStep(ev) == Force([StepRec(VerdictCandsM("new", ev.out, FALSE, FALSE, FALSE, [order |-> ev.order]), <<"optimizers">>) EXCEPT !.cfgs = With(cfgs, ev.obj, NewCfg(ev))])
 TrNew == IsEvent("opt_new") /\ sc' = NewStep(Ev) /\ ONew(Ev.obj) /\ Record
 TrVerdict == IsEvent("verdict") /\ sc' = Force(StepRec(VerdictCands("verdict", Ev.out, cfgs[Ev.obj].valid, FALSE, << >>), <<"verdicts">>))
              /\ UNCHANGED <<opts, umaps, nextWs>> /\ Record
